@@ -133,3 +133,887 @@ Proof.
   - apply mask_sext; lia.
   - apply mask_idem; lia.
 Qed.
+
+(* ================================================================== induction principle for the nested type *)
+Lemma layout_ind' (P : layout -> Prop)
+  (HL : forall s, P (Leaf s)) (HE : forall s vw ms, P (ELeaf s vw ms))
+  (HS : forall fs, Forall (fun kf => P (snd kf)) fs -> P (Struct fs))
+  (HU : forall fs, Forall (fun kf => P (snd kf)) fs -> P (Union fs))
+  (HA : forall e n, P e -> P (Array e n))
+  (HF : forall sz fs, Forall (fun kf => P (snd (snd kf))) fs -> P (Flex sz fs)) : forall l, P l.
+Proof.
+  fix IH 1. intros [s|s vw ms|fs|fs|e n|sz fs].
+  - apply HL.
+  - apply HE.
+  - apply HS. induction fs as [|kf r IHr]; constructor; [apply IH | exact IHr].
+  - apply HU. induction fs as [|kf r IHr]; constructor; [apply IH | exact IHr].
+  - apply HA. apply IH.
+  - apply HF. induction fs as [|kf r IHr]; constructor; [apply IH | exact IHr].
+Qed.
+
+(* ================================================================== lists: max, sums, assoc *)
+Lemma fold_max_ge r : forall x, x <= fold_left Z.max r x.
+Proof. induction r as [|y r IH]; intros x; simpl; [lia|]. specialize (IH (Z.max x y)). lia. Qed.
+
+Lemma fold_max_in_ge r : forall x y, In y r -> y <= fold_left Z.max r x.
+Proof.
+  induction r as [|z r IH]; intros x y Hin; simpl in *; [tauto|]. destruct Hin as [->|Hin].
+  - pose proof (fold_max_ge r (Z.max x y)). lia.
+  - apply IH; auto.
+Qed.
+
+Lemma fold_max_is r : forall x, fold_left Z.max r x = x \/ In (fold_left Z.max r x) r.
+Proof.
+  induction r as [|z r IH]; intros x; simpl; [auto|].
+  destruct (IH (Z.max x z)) as [H|H]; [|auto].
+  rewrite H. destruct (Z.max_spec x z) as [[_ ->]|[_ ->]]; auto.
+Qed.
+
+Lemma max_default0_ge l x : In x l -> x <= max_default0 l.
+Proof.
+  destruct l as [|y r]; simpl; [tauto|]. intros [->|Hin]; [apply fold_max_ge|apply fold_max_in_ge; auto].
+Qed.
+
+Lemma max_default0_in l : l <> [] -> In (max_default0 l) l.
+Proof.
+  destruct l as [|y r]; [congruence|]. intros _. simpl. destruct (fold_max_is r y) as [->|H]; auto.
+Qed.
+
+Definition zsum (l : list Z) : Z := fold_right Z.add 0 l.
+
+Lemma struct_ends_last ws : forall off, Forall (fun w => 0 <= w) ws -> ws <> [] ->
+  max_default0 (struct_ends off ws) = off + zsum ws.
+Proof.
+  induction ws as [|w r IH]; intros off Hnn Hne; [congruence|].
+  inversion Hnn as [|? ? Hw Hr]; subst.
+  destruct r as [|w2 r2].
+  - simpl. lia.
+  - specialize (IH (off + w) Hr ltac:(congruence)).
+    change (struct_ends off (w :: w2 :: r2)) with ((off + w) :: struct_ends (off + w) (w2 :: r2)).
+    assert (Hge : forall y, In y (struct_ends (off + w) (w2 :: r2)) -> y <= max_default0 (struct_ends (off + w) (w2 :: r2)))
+      by (intros; apply max_default0_ge; auto).
+    remember (struct_ends (off + w) (w2 :: r2)) as E eqn:HE.
+    destruct E as [|e1 E']; [simpl in HE; discriminate|].
+    simpl in IH |- *.
+    assert (off + w <= e1) by (simpl in HE; inversion HE; inversion Hr; subst; lia).
+    rewrite Z.max_r by lia. rewrite IH. simpl. lia.
+Qed.
+
+Lemma assoc_in {A} k (l : list (Z * A)) a : assoc k l = Some a -> In (k, a) l.
+Proof.
+  induction l as [|[k' a'] r IH]; simpl; [discriminate|].
+  destruct (k =? k') eqn:E; intros H.
+  - inversion H; subst. left. f_equal. lia.
+  - right; auto.
+Qed.
+
+Lemma memz_in v l : memz v l = true <-> In v l.
+Proof.
+  induction l as [|x r IH]; simpl; [split; [discriminate|tauto]|].
+  rewrite orb_true_iff, IH. split; intros [H|H]; auto; left; lia.
+Qed.
+
+Lemma nodupz_NoDup l : nodupz l = true -> NoDup l.
+Proof.
+  induction l as [|x r IH]; simpl; [constructor|]. rewrite andb_true_iff, negb_true_iff.
+  intros [Hm Hr]. constructor; auto. intros Hin. apply memz_in in Hin. congruence.
+Qed.
+
+Lemma in_assoc_nodup {A} k (a : A) l : NoDup (map fst l) -> In (k, a) l -> assoc k l = Some a.
+Proof.
+  induction l as [|[k' a'] r IH]; simpl; [tauto|]. intros Hnd Hin. inversion Hnd as [|? ? Hni Hr]; subst.
+  destruct Hin as [Heq|Hin].
+  - inversion Heq; subst. rewrite Z.eqb_refl. reflexivity.
+  - destruct (k =? k') eqn:E.
+    + exfalso. apply Hni. assert (k = k') by lia. subst. apply (in_map fst) in Hin. exact Hin.
+    + apply IH; auto.
+Qed.
+
+(* ================================================================== sizes and placement *)
+Definition sizes (fs : list (Z * layout)) : list Z := map (fun kf => layout_size (snd kf)) fs.
+
+Lemma layout_size_struct fs : layout_size (Struct fs) = max_default0 (struct_ends 0 (sizes fs)).
+Proof. reflexivity. Qed.
+Lemma layout_size_union fs : layout_size (Union fs) = max_default0 (sizes fs).
+Proof. reflexivity. Qed.
+
+Lemma wf_struct_inv fs : wf_layout (Struct fs) = true ->
+  NoDup (map fst fs) /\ Forall (fun kf => wf_layout (snd kf) = true) fs.
+Proof.
+  simpl. rewrite andb_true_iff. intros [H1 H2]. split; [apply nodupz_NoDup; auto|].
+  apply Forall_forall. intros x Hx. rewrite forallb_forall in H2. apply H2; auto.
+Qed.
+Lemma wf_union_inv fs : wf_layout (Union fs) = true ->
+  NoDup (map fst fs) /\ Forall (fun kf => wf_layout (snd kf) = true) fs.
+Proof. exact (wf_struct_inv fs). Qed.
+Lemma wf_flex_inv sz fs : wf_layout (Flex sz fs) = true ->
+  0 <= sz /\ NoDup (map fst fs) /\
+  Forall (fun kf => 0 <= fst (snd kf) /\ fst (snd kf) + layout_size (snd (snd kf)) <= sz /\
+                    wf_layout (snd (snd kf)) = true) fs.
+Proof.
+  simpl. rewrite !andb_true_iff. intros [[H0 H1] H2]. split; [lia|]. split; [apply nodupz_NoDup; auto|].
+  apply Forall_forall. intros x Hx. rewrite forallb_forall in H2. specialize (H2 x Hx).
+  rewrite !andb_true_iff in H2. destruct H2 as [[A B] C]. repeat split; auto; lia.
+Qed.
+
+Lemma struct_ends_first_nonneg ws off : Forall (fun w => 0 <= w) ws -> 0 <= off -> 0 <= max_default0 (struct_ends off ws).
+Proof.
+  intros Hnn Ho. destruct ws as [|w r]; simpl; [lia|]. inversion Hnn; subst.
+  pose proof (fold_max_ge (struct_ends (off + w) r) (off + w)). lia.
+Qed.
+
+Lemma layout_size_nonneg l : wf_layout l = true -> 0 <= layout_size l.
+Proof.
+  induction l as [s|s vw ms|fs IH|fs IH|e n IH|sz fs IH] using layout_ind'; intros Hwf.
+  - simpl in *. unfold wf_shape in Hwf. destruct (sgn s); lia.
+  - simpl in *. unfold wf_shape in Hwf. destruct (sgn s); lia.
+  - rewrite layout_size_struct. apply wf_struct_inv in Hwf. destruct Hwf as [_ Hall].
+    apply struct_ends_first_nonneg; [|lia]. unfold sizes. apply Forall_forall. intros w Hw.
+    apply in_map_iff in Hw. destruct Hw as (kf & <- & Hin).
+    rewrite Forall_forall in IH, Hall. apply IH; auto.
+  - rewrite layout_size_union. apply wf_union_inv in Hwf. destruct Hwf as [_ Hall].
+    destruct fs as [|kf r]; [simpl; lia|].
+    assert (0 <= layout_size (snd kf)).
+    { inversion IH; inversion Hall; subst; auto. }
+    pose proof (max_default0_ge (sizes (kf :: r)) (layout_size (snd kf)) ltac:(left; reflexivity)). lia.
+  - simpl in *. specialize (IH Hwf). nia.
+  - apply wf_flex_inv in Hwf. simpl. tauto.
+Qed.
+
+Lemma sizes_nonneg fs : Forall (fun kf => wf_layout (snd kf) = true) fs -> Forall (fun w => 0 <= w) (sizes fs).
+Proof.
+  intros H. unfold sizes. apply Forall_forall. intros w Hw. apply in_map_iff in Hw.
+  destruct Hw as (kf & <- & Hin). rewrite Forall_forall in H. apply layout_size_nonneg; auto.
+Qed.
+
+Lemma zsum_nonneg l : Forall (fun w => 0 <= w) l -> 0 <= zsum l.
+Proof. induction 1; simpl; lia. Qed.
+
+(* size of a struct = sum of the member sizes *)
+Lemma struct_size_sum fs : wf_layout (Struct fs) = true -> layout_size (Struct fs) = zsum (sizes fs).
+Proof.
+  intros Hwf. apply wf_struct_inv in Hwf. destruct Hwf as [_ Hall]. rewrite layout_size_struct.
+  destruct fs as [|kf r]; [reflexivity|].
+  rewrite struct_ends_last; [lia|apply sizes_nonneg; auto|simpl; congruence].
+Qed.
+
+Lemma struct_fields_nth fs : forall off i k f, nth_error fs i = Some (k, f) ->
+  nth_error (struct_fields off fs) i = Some (k, (off + zsum (sizes (firstn i fs)), f)).
+Proof.
+  induction fs as [|[k0 f0] r IH]; intros off i k f Hn; [destruct i; discriminate|].
+  destruct i as [|i]; simpl in *.
+  - inversion Hn; subst. f_equal. f_equal. f_equal. lia.
+  - rewrite (IH _ _ _ _ Hn). f_equal. f_equal. f_equal. lia.
+Qed.
+
+Lemma struct_fields_keys fs : forall off, map fst (struct_fields off fs) = map fst fs.
+Proof. induction fs as [|[k f] r IH]; intros; simpl; [reflexivity|]. rewrite IH. reflexivity. Qed.
+
+Lemma struct_fields_in fs : forall off k o f, In (k, (o, f)) (struct_fields off fs) ->
+  exists i, nth_error fs i = Some (k, f) /\ o = off + zsum (sizes (firstn i fs)) /\
+            In (o + layout_size f) (struct_ends off (sizes fs)).
+Proof.
+  induction fs as [|[k0 f0] r IH]; intros off k o f Hin; simpl in *; [tauto|].
+  destruct Hin as [Heq|Hin].
+  - inversion Heq; subst. exists O. unfold sizes, zsum. simpl. split; auto. split; [lia|left; reflexivity].
+  - destruct (IH _ _ _ _ Hin) as (i & Hn & Ho & He). exists (S i). unfold sizes, zsum in *. simpl. split; auto. split; [lia|right; exact He].
+Qed.
+
+Lemma array_fields_in e : forall n idx off k o f, In (k, (o, f)) (array_fields e idx off n) ->
+  f = e /\ idx <= k < idx + Z.of_nat n /\ o = off + (k - idx) * layout_size e.
+Proof.
+  induction n as [|n IH]; intros idx off k o f Hin; simpl in Hin; [tauto|].
+  destruct Hin as [Heq|Hin].
+  - inversion Heq; subst. split; auto. split; [lia|lia].
+  - destruct (IH _ _ _ _ _ Hin) as (-> & Hk & Ho). split; auto. split; [lia|]. rewrite Ho. lia.
+Qed.
+
+Lemma array_fields_nth e : forall n idx off i, (i < n)%nat ->
+  nth_error (array_fields e idx off n) i = Some (idx + Z.of_nat i, (off + Z.of_nat i * layout_size e, e)).
+Proof.
+  induction n as [|n IH]; intros idx off i Hi; [lia|]. destruct i as [|i]; cbn [array_fields nth_error].
+  - f_equal. f_equal; [lia|]. f_equal. lia.
+  - rewrite IH by lia. f_equal. f_equal; [lia|]. f_equal. lia.
+Qed.
+
+(* every field lies inside its layout, and sub-layouts are well-formed *)
+Lemma field_of_within l k off sub : wf_layout l = true -> field_of l k = Some (off, sub) ->
+  0 <= off /\ off + layout_size sub <= layout_size l /\ wf_layout sub = true.
+Proof.
+  intros Hwf Hf. destruct l as [s|s vw ms|fs|fs|e n|sz fs]; simpl in Hf; try discriminate.
+  - (* struct *)
+    pose proof (wf_struct_inv fs Hwf) as [Hnd Hall].
+    apply assoc_in in Hf. apply struct_fields_in in Hf. destruct Hf as (i & Hn & Ho & He).
+    pose proof (sizes_nonneg fs Hall) as Hnn.
+    split.
+    + rewrite Ho. assert (0 <= zsum (sizes (firstn i fs))); [|lia].
+      apply zsum_nonneg. apply sizes_nonneg. apply Forall_forall. intros x Hx.
+      rewrite Forall_forall in Hall. apply Hall. eapply (In_nth_error) in Hx. destruct Hx as [j Hj].
+      apply nth_error_In with j. rewrite <- Hj. symmetry.
+      clear -Hj. revert i Hj. revert fs. induction j; intros fs i Hj; destruct i, fs; simpl in *; try discriminate; auto.
+    + split.
+      * rewrite layout_size_struct. apply max_default0_ge. exact He.
+      * apply nth_error_In in Hn. rewrite Forall_forall in Hall. apply (Hall _ Hn).
+  - (* union *)
+    pose proof (wf_union_inv fs Hwf) as [Hnd Hall].
+    apply assoc_in in Hf. apply in_map_iff in Hf. destruct Hf as ([k' f'] & Heq & Hin). simpl in Heq.
+    inversion Heq; subst. split; [lia|]. split.
+    + rewrite layout_size_union. simpl. apply max_default0_ge. unfold sizes.
+      apply in_map_iff. exists (k, sub). auto.
+    + rewrite Forall_forall in Hall. apply (Hall _ Hin).
+  - (* array *)
+    simpl in Hwf. pose proof (layout_size_nonneg e Hwf) as Hw.
+    destruct ((- Z.of_nat n <=? k) && (k <? Z.of_nat n)) eqn:E; [|discriminate].
+    inversion Hf; subst. simpl. split; [|split; auto]; destruct (k <? 0) eqn:E2; nia.
+  - (* flex *)
+    pose proof (wf_flex_inv sz fs Hwf) as (Hsz & Hnd & Hall).
+    apply assoc_in in Hf. rewrite Forall_forall in Hall. specialize (Hall _ Hf). simpl in *. tauto.
+Qed.
+
+(* ================================================================== placement theorems *)
+Lemma struct_fields_contiguous fs i k f : wf_layout (Struct fs) = true -> nth_error fs i = Some (k, f) ->
+  nth_error (fields_of (Struct fs)) i = Some (k, (zsum (sizes (firstn i fs)), f)) /\
+  field_of (Struct fs) k = Some (zsum (sizes (firstn i fs)), f).
+Proof.
+  intros Hwf Hn. pose proof (wf_struct_inv fs Hwf) as [Hnd _].
+  pose proof (struct_fields_nth fs 0 i k f Hn) as H. simpl in H. split; [exact H|].
+  simpl. apply in_assoc_nodup; [rewrite struct_fields_keys; auto|]. apply nth_error_In in H. exact H.
+Qed.
+
+Lemma union_field fs k off sub : field_of (Union fs) k = Some (off, sub) -> off = 0 /\ In (k, sub) fs.
+Proof.
+  simpl. intros H. apply assoc_in in H. apply in_map_iff in H. destruct H as ([k' f'] & Heq & Hin).
+  simpl in Heq. inversion Heq; subst. auto.
+Qed.
+
+Lemma union_field_in fs k f : wf_layout (Union fs) = true -> In (k, f) fs -> field_of (Union fs) k = Some (0, f).
+Proof.
+  intros Hwf Hin. pose proof (wf_union_inv fs Hwf) as [Hnd _]. simpl. apply in_assoc_nodup.
+  - rewrite map_map. simpl. exact Hnd.
+  - apply in_map_iff. exists (k, f). auto.
+Qed.
+
+Lemma union_size_max fs :
+  (forall k f, In (k, f) fs -> layout_size f <= layout_size (Union fs)) /\
+  (fs <> [] -> exists k f, In (k, f) fs /\ layout_size f = layout_size (Union fs)) /\
+  (fs = [] -> layout_size (Union fs) = 0).
+Proof.
+  rewrite layout_size_union. split; [|split].
+  - intros k f Hin. apply max_default0_ge. unfold sizes. apply in_map_iff. exists (k, f). auto.
+  - intros Hne. assert (sizes fs <> []) as Hs by (destruct fs; simpl; congruence).
+    pose proof (max_default0_in _ Hs) as Hin. unfold sizes in Hin at 2. apply in_map_iff in Hin.
+    destruct Hin as ([k f] & Heq & Hin). exists k, f. auto.
+  - intros ->. reflexivity.
+Qed.
+
+Lemma array_elem_offset e n i : 0 <= i < Z.of_nat n ->
+  field_of (Array e n) i = Some (i * layout_size e, e) /\
+  field_of (Array e n) (i - Z.of_nat n) = Some (i * layout_size e, e) /\
+  nth_error (fields_of (Array e n)) (Z.to_nat i) = Some (i, (i * layout_size e, e)) /\
+  layout_size (Array e n) = layout_size e * Z.of_nat n.
+Proof.
+  intros Hi. simpl. repeat split.
+  - replace ((- Z.of_nat n <=? i) && (i <? Z.of_nat n)) with true by lia.
+    replace (i <? 0) with false by lia. reflexivity.
+  - replace ((- Z.of_nat n <=? i - Z.of_nat n) && (i - Z.of_nat n <? Z.of_nat n)) with true by lia.
+    replace (i - Z.of_nat n <? 0) with true by lia. f_equal. f_equal. f_equal. lia.
+  - rewrite array_fields_nth by lia. rewrite Z2Nat.id by lia. f_equal.
+Qed.
+
+(* ================================================================== Layout.const *)
+Definition field_disj (l : layout) (o w k' : Z) : Prop :=
+  exists o' s', field_of l k' = Some (o', s') /\ (o + w <= o' \/ o' + layout_size s' <= o).
+
+Lemma keys_disjoint_cons l k r : keys_disjoint l (k :: r) = true ->
+  exists o s, field_of l k = Some (o, s) /\ (forall k', In k' r -> field_disj l o (layout_size s) k') /\
+              keys_disjoint l r = true.
+Proof.
+  simpl. destruct (field_of l k) as [[o s]|]; [|discriminate]. rewrite andb_true_iff. intros [H1 H2].
+  exists o, s. split; auto. split; auto. intros k' Hin. rewrite forallb_forall in H1. specialize (H1 _ Hin).
+  unfold field_disj. destruct (field_of l k') as [[o' s']|]; [|discriminate]. exists o', s'. split; auto.
+  unfold disjb in H1. lia.
+Qed.
+
+Section Fold.
+  Variable rec : layout -> init -> resz.
+
+  Lemma const_fold_preserves l : wf_layout l = true -> forall kvs cur v o w, 0 <= o -> 0 <= w ->
+    (forall k', In k' (map fst kvs) -> field_disj l o w k') ->
+    const_fold rec l kvs cur = Okz v -> slice o w v = slice o w cur.
+  Proof.
+    intros Hwf. induction kvs as [|[k x] r IH]; intros cur v o w Ho Hw Hd Hf; simpl in Hf.
+    - inversion Hf; subst; reflexivity.
+    - destruct (Hd k ltac:(left; reflexivity)) as (o' & s' & Hfo & Hdisj). rewrite Hfo in Hf.
+      destruct (field_init rec s' x) as [fv|c] eqn:Hfi; [|discriminate].
+      destruct (field_of_within l k o' s' Hwf Hfo) as (Ho' & _ & Hws).
+      pose proof (layout_size_nonneg s' Hws) as Hs'.
+      rewrite (IH _ _ o w Ho Hw (fun k' Hin => Hd k' (or_intror Hin)) Hf).
+      apply slice_upd_other; auto; lia.
+  Qed.
+
+  Lemma const_fold_field l : wf_layout l = true -> forall kvs cur v,
+    keys_disjoint l (map fst kvs) = true -> const_fold rec l kvs cur = Okz v ->
+    forall k x, In (k, x) kvs ->
+    exists off sub fv, field_of l k = Some (off, sub) /\ field_init rec sub x = Okz fv /\
+                       slice off (layout_size sub) v = mask (layout_size sub) fv.
+  Proof.
+    intros Hwf. induction kvs as [|[k0 x0] r IH]; intros cur v Hkd Hf k x Hin; [destruct Hin|].
+    simpl map in Hkd. apply keys_disjoint_cons in Hkd. destruct Hkd as (o & s & Hfo & Hdis & Hkd).
+    simpl in Hf. rewrite Hfo in Hf. destruct (field_init rec s x0) as [fv|c] eqn:Hfi; [|discriminate].
+    destruct Hin as [Heq|Hin].
+    - inversion Heq; subst. exists o, s, fv. split; auto. split; auto.
+      destruct (field_of_within l k o s Hwf Hfo) as (Ho & _ & Hws).
+      pose proof (layout_size_nonneg s Hws) as Hs.
+      rewrite (const_fold_preserves l Hwf r _ v o (layout_size s) Ho Hs Hdis Hf).
+      apply slice_upd_same; auto.
+    - apply (IH _ v Hkd Hf k x Hin).
+  Qed.
+
+  Lemma const_fold_range l : wf_layout l = true -> forall kvs cur v,
+    0 <= cur < 2 ^ layout_size l -> const_fold rec l kvs cur = Okz v -> 0 <= v < 2 ^ layout_size l.
+  Proof.
+    intros Hwf. induction kvs as [|[k x] r IH]; intros cur v Hc Hf; simpl in Hf.
+    - inversion Hf; subst; auto.
+    - destruct (field_of l k) as [[o s]|] eqn:Hfo; [|discriminate].
+      destruct (field_init rec s x) as [fv|c]; [|discriminate].
+      destruct (field_of_within l k o s Hwf Hfo) as (Ho & Hin & Hws).
+      pose proof (layout_size_nonneg s Hws) as Hs.
+      eapply IH; [|exact Hf]. apply upd_range; auto.
+  Qed.
+End Fold.
+
+Lemma layout_const_map l kvs : layout_const l (IMap kvs) =
+  if negb (is_layout l) then Errz 4
+  else if is_union l && (1 <? Z.of_nat (length kvs)) then Errz 3
+  else const_fold layout_const l kvs 0.
+Proof. reflexivity. Qed.
+
+Lemma layout_const_range l i v : wf_layout l = true -> layout_const l i = Okz v -> 0 <= v < 2 ^ layout_size l.
+Proof.
+  intros Hwf H. destruct i as [x|kvs]; [discriminate|]. rewrite layout_const_map in H.
+  destruct (negb (is_layout l)); [discriminate|].
+  destruct (is_union l && (1 <? Z.of_nat (length kvs))); [discriminate|].
+  apply (const_fold_range layout_const l Hwf kvs 0 v); auto.
+  pose proof (pow2_pos (layout_size l) (layout_size_nonneg l Hwf)). lia.
+Qed.
+
+Lemma const_getitem_field l raw k off sub : is_layout l = true -> field_of l k = Some (off, sub) ->
+  const_getitem l raw k = const_field sub (slice off (layout_size sub) raw).
+Proof. intros Hl Hf. unfold const_getitem. rewrite Hl, Hf. reflexivity. Qed.
+
+(* one level: reading back a field of the constant built from an initialiser *)
+Lemma const_field_roundtrip l kvs v k x : wf_layout l = true ->
+  layout_const l (IMap kvs) = Okz v -> keys_disjoint l (map fst kvs) = true -> In (k, x) kvs ->
+  exists off sub fv, field_of l k = Some (off, sub) /\ field_init layout_const sub x = Okz fv /\
+                     const_getitem l v k = const_field sub (mask (layout_size sub) fv).
+Proof.
+  intros Hwf Hc Hkd Hin. rewrite layout_const_map in Hc.
+  destruct (is_layout l) eqn:Hl; [|discriminate]. simpl in Hc.
+  destruct (is_union l && (1 <? Z.of_nat (length kvs))); [discriminate|].
+  destruct (const_fold_field layout_const l Hwf kvs 0 v Hkd Hc k x Hin) as (off & sub & fv & Hfo & Hfi & Hs).
+  exists off, sub, fv. split; auto. split; auto. rewrite (const_getitem_field l v k off sub Hl Hfo). rewrite Hs. reflexivity.
+Qed.
+
+Lemma const_field_leaf s fv : wf_shape s = true -> const_field (Leaf s) (mask (width s) (norm s fv)) = Ok (Leaf s) (norm s fv).
+Proof. intros Hs. simpl. rewrite norm_of_mask by auto. rewrite norm_idem by auto. reflexivity. Qed.
+
+(* plain-shape fields: the value read back is the initialiser normalised to the field's shape *)
+Lemma const_field_roundtrip_leaf l kvs v k xv off s : wf_layout l = true ->
+  layout_const l (IMap kvs) = Okz v -> keys_disjoint l (map fst kvs) = true -> In (k, IVal xv) kvs ->
+  field_of l k = Some (off, Leaf s) ->
+  const_getitem l v k = Ok (Leaf s) (norm s xv).
+Proof.
+  intros Hwf Hc Hkd Hin Hfo.
+  destruct (const_field_roundtrip l kvs v k (IVal xv) Hwf Hc Hkd Hin) as (off' & sub & fv & Hfo' & Hfi & Hg).
+  rewrite Hfo in Hfo'. inversion Hfo'; subst. simpl in Hfi. inversion Hfi; subst.
+  rewrite Hg. destruct (field_of_within l k off' (Leaf s) Hwf Hfo) as (_ & _ & Hws).
+  apply (const_field_leaf s xv Hws).
+Qed.
+
+Lemma field_init_layout sub x : is_layout sub = true -> field_init layout_const sub x = layout_const sub x.
+Proof. destruct sub; simpl; try discriminate; reflexivity. Qed.
+
+Lemma const_field_layout sub fv : is_layout sub = true -> 0 <= fv < 2 ^ layout_size sub ->
+  const_field sub (mask (layout_size sub) fv) = Ok sub fv.
+Proof.
+  intros Hl Hr. rewrite mask_small by auto.
+  assert (from_bits sub fv = Ok sub fv) as Hfb.
+  { unfold from_bits. replace ((0 <=? fv) && (fv <? 2 ^ layout_size sub)) with true by lia. reflexivity. }
+  destruct sub; simpl in Hl; try discriminate; exact Hfb.
+Qed.
+
+(* nested-layout fields: the value read back is the constant of the nested initialiser *)
+Lemma const_field_roundtrip_nested l kvs v k x off sub : wf_layout l = true ->
+  layout_const l (IMap kvs) = Okz v -> keys_disjoint l (map fst kvs) = true -> In (k, x) kvs ->
+  field_of l k = Some (off, sub) -> is_layout sub = true ->
+  exists fv, layout_const sub x = Okz fv /\ const_getitem l v k = Ok sub fv.
+Proof.
+  intros Hwf Hc Hkd Hin Hfo Hl.
+  destruct (const_field_roundtrip l kvs v k x Hwf Hc Hkd Hin) as (off' & sub' & fv & Hfo' & Hfi & Hg).
+  rewrite Hfo in Hfo'. inversion Hfo'; subst. rewrite field_init_layout in Hfi by auto.
+  exists fv. split; auto. rewrite Hg. apply const_field_layout; auto.
+  destruct (field_of_within l k off' sub' Hwf Hfo) as (_ & _ & Hws).
+  apply (layout_const_range sub' x fv Hws Hfi).
+Qed.
+
+(* enumeration fields: correct for members that are non-negative and fit the shape *)
+Lemma const_field_roundtrip_enum l kvs v k m off s vw ms : wf_layout l = true ->
+  layout_const l (IMap kvs) = Okz v -> keys_disjoint l (map fst kvs) = true -> In (k, IVal m) kvs ->
+  field_of l k = Some (off, ELeaf s vw ms) -> 0 <= m < 2 ^ width s ->
+  const_getitem l v k = Ok (ELeaf s vw ms) m.
+Proof.
+  intros Hwf Hc Hkd Hin Hfo Hm.
+  destruct (const_field_roundtrip l kvs v k (IVal m) Hwf Hc Hkd Hin) as (off' & sub & fv & Hfo' & Hfi & Hg).
+  rewrite Hfo in Hfo'. inversion Hfo'; subst. simpl in Hfi.
+  destruct (memz m ms) eqn:Hmem; [|discriminate]. inversion Hfi; subst.
+  rewrite Hg. destruct (field_of_within l k off' _ Hwf Hfo) as (_ & _ & Hws). simpl in Hws.
+  simpl layout_size. rewrite mask_of_norm by auto. rewrite mask_small by auto. simpl. rewrite Hmem. reflexivity.
+Qed.
+
+(* ================================================================== nested paths *)
+Lemma field_of_some_layout l k r : field_of l k = Some r -> is_layout l = true.
+Proof. destruct l; simpl; try discriminate; auto. Qed.
+
+Lemma init_ok_map l kvs : init_ok l (IMap kvs) =
+  is_layout l && keys_disjoint l (map fst kvs) &&
+  forallb (fun kx => match field_of l (fst kx) with Some (_, sub) => init_ok sub (snd kx) | None => false end) kvs.
+Proof. reflexivity. Qed.
+
+Lemma const_path_cons l raw k r : const_path l raw (k :: r) =
+  match const_getitem l raw k with
+  | Ok sub v => match r with [] => Ok sub v | _ => const_path sub v r end
+  | e => e
+  end.
+Proof. reflexivity. Qed.
+
+Lemma const_path_single l raw k : const_path l raw [k] = const_getitem l raw k.
+Proof. rewrite const_path_cons. destruct (const_getitem l raw k); reflexivity. Qed.
+
+Lemma const_path_roundtrip : forall p l i v x, wf_layout l = true -> init_ok l i = true ->
+  layout_const l i = Okz v -> p <> [] -> init_at i p = Some x ->
+  exists c sub fv, path_chain l p = Some (c, sub) /\ field_init layout_const sub x = Okz fv /\
+                   const_path l v p = const_field sub (mask (layout_size sub) fv).
+Proof.
+  induction p as [|k r IH]; intros l i v x Hwf Hok Hc Hne Hat; [congruence|].
+  destruct i as [xv|kvs]; [discriminate|]. simpl in Hat.
+  destruct (assoc k kvs) as [xk|] eqn:Ha; [|discriminate]. apply assoc_in in Ha.
+  rewrite init_ok_map in Hok. rewrite !andb_true_iff in Hok. destruct Hok as [[Hl Hkd] Hall].
+  destruct (const_field_roundtrip l kvs v k xk Hwf Hc Hkd Ha) as (off & sub & fv & Hfo & Hfi & Hg).
+  destruct r as [|k2 r2].
+  - simpl in Hat. inversion Hat; subst x. exists [(off, layout_size sub)], sub, fv.
+    simpl. rewrite Hfo. split; auto. split; auto. fold (const_path l v [k]). rewrite const_path_single. exact Hg.
+  - destruct xk as [xv|kvs2]; [simpl in Hat; discriminate|].
+    rewrite forallb_forall in Hall. specialize (Hall _ Ha). cbn [fst snd] in Hall. rewrite Hfo in Hall.
+    assert (is_layout sub = true) as Hls.
+    { rewrite init_ok_map in Hall. rewrite !andb_true_iff in Hall. tauto. }
+    rewrite field_init_layout in Hfi by auto.
+    destruct (field_of_within l k off sub Hwf Hfo) as (_ & _ & Hws).
+    pose proof (layout_const_range sub _ fv Hws Hfi) as Hr.
+    rewrite const_field_layout in Hg by auto.
+    destruct (IH sub (IMap kvs2) fv x Hws Hall Hfi ltac:(congruence) Hat) as (c & t & fv' & Hpc & Hfi' & Hcp).
+    exists ((off, layout_size sub) :: c), t, fv'. split; [|split; auto].
+    + change (path_chain l (k :: k2 :: r2)) with
+        (match field_of l k with
+         | Some (off, sub) => match path_chain sub (k2 :: r2) with Some (c, t) => Some ((off, layout_size sub) :: c, t) | None => None end
+         | None => None end).
+      rewrite Hfo, Hpc. reflexivity.
+    + rewrite const_path_cons, Hg. exact Hcp.
+Qed.
+
+Lemma path_chain_cons l k r : path_chain l (k :: r) =
+  match field_of l k with
+  | Some (off, sub) => match path_chain sub r with Some (c, t) => Some ((off, layout_size sub) :: c, t) | None => None end
+  | None => None
+  end.
+Proof. reflexivity. Qed.
+
+Lemma chain_off_cons o w c : chain_off ((o, w) :: c) = o + chain_off c.
+Proof. reflexivity. Qed.
+
+Lemma path_chain_within : forall p l c t, wf_layout l = true -> path_chain l p = Some (c, t) ->
+  0 <= chain_off c /\ chain_off c + layout_size t <= layout_size l /\ wf_layout t = true.
+Proof.
+  induction p as [|k r IH]; intros l c t Hwf Hpc.
+  - simpl in Hpc. inversion Hpc; subst. unfold chain_off; simpl. split; [lia|]. split; [lia|auto].
+  - rewrite path_chain_cons in Hpc. destruct (field_of l k) as [[off sub]|] eqn:Hfo; [|discriminate].
+    destruct (path_chain sub r) as [[c' t']|] eqn:Hpc'; [|discriminate]. inversion Hpc; subst.
+    destruct (field_of_within l k off sub Hwf Hfo) as (Ho & Hin & Hws).
+    destruct (IH sub c' t Hws Hpc') as (H1 & H2 & H3). rewrite chain_off_cons. split; [lia|]. split; [lia|auto].
+Qed.
+
+(* ================================================================== views *)
+Lemma view_field_const sub bits : wf_layout sub = true -> 0 <= bits < 2 ^ layout_size sub ->
+  view_ok_field sub bits = true -> view_field sub bits = const_field sub bits.
+Proof.
+  intros Hwf Hb Hok. destruct sub as [s|s vw ms|fs|fs|e n|sz fs]; try reflexivity.
+  - simpl in *. unfold norm. destruct (sgn s); [reflexivity|]. rewrite mask_small by auto. reflexivity.
+  - simpl in *. destruct vw.
+    + destruct (sgn s); [discriminate|]. reflexivity.
+    + rewrite Hok. reflexivity.
+Qed.
+
+Lemma view_getitem_field l tv k off sub : field_of l k = Some (off, sub) ->
+  view_getitem l tv k = view_field sub (slice off (layout_size sub) tv).
+Proof. intros Hf. unfold view_getitem. rewrite (field_of_some_layout l k _ Hf), Hf. reflexivity. Qed.
+
+Lemma view_matches_const l tv k : wf_layout l = true ->
+  (forall off sub, field_of l k = Some (off, sub) -> view_ok_field sub (slice off (layout_size sub) tv) = true) ->
+  view_getitem l tv k = const_getitem l tv k.
+Proof.
+  intros Hwf Hok. destruct (field_of l k) as [[off sub]|] eqn:Hfo.
+  - rewrite (view_getitem_field l tv k off sub Hfo).
+    rewrite (const_getitem_field l tv k off sub (field_of_some_layout l k _ Hfo) Hfo).
+    destruct (field_of_within l k off sub Hwf Hfo) as (Ho & _ & Hws).
+    apply view_field_const; auto. apply slice_range; auto. apply layout_size_nonneg; auto.
+  - unfold view_getitem, const_getitem. rewrite Hfo. reflexivity.
+Qed.
+
+(* a plain-shape field of a view: the bit slice of the underlying value, reinterpreted in the field's shape *)
+Lemma view_leaf_spec l tv k off s : wf_layout l = true -> field_of l k = Some (off, Leaf s) ->
+  view_getitem l tv k = Ok (Leaf s) (norm s ((tv / 2 ^ off) mod 2 ^ width s)) /\
+  const_getitem l tv k = Ok (Leaf s) (norm s ((tv / 2 ^ off) mod 2 ^ width s)) /\
+  (forall i, 0 <= i < width s ->
+     Z.testbit (norm s ((tv / 2 ^ off) mod 2 ^ width s)) i = Z.testbit tv (off + i)).
+Proof.
+  intros Hwf Hfo. destruct (field_of_within l k off _ Hwf Hfo) as (Ho & _ & Hws).
+  pose proof (layout_size_nonneg _ Hws) as Hw. simpl in Hw, Hws.
+  assert (const_getitem l tv k = Ok (Leaf s) (norm s ((tv / 2 ^ off) mod 2 ^ width s))) as Hc.
+  { rewrite (const_getitem_field l tv k off _ (field_of_some_layout l k _ Hfo) Hfo). simpl.
+    rewrite slice_eq by auto. reflexivity. }
+  split; [|split; auto].
+  - rewrite view_matches_const; auto. intros off' sub' Hfo'. rewrite Hfo in Hfo'. inversion Hfo'; subst. reflexivity.
+  - intros i Hi. rewrite testbit_norm by (auto; lia).
+    fold (mask (width s) (tv / 2 ^ off)).
+    destruct (sgn s).
+    + replace (i <? width s) with true by lia. rewrite testbit_mask by auto.
+      replace (i <? width s) with true by lia. simpl. rewrite testbit_div_pow2 by lia. f_equal. lia.
+    + replace (i <? width s) with true by lia. simpl. rewrite testbit_mask by auto.
+      replace (i <? width s) with true by lia. simpl. rewrite testbit_div_pow2 by lia. f_equal. lia.
+Qed.
+
+(* dynamic index within range = static index *)
+Lemma view_dyn_matches e n tv idx : 0 <= idx < Z.of_nat n -> 0 < layout_size e ->
+  view_getitem_dyn (Array e n) tv idx = view_getitem (Array e n) tv idx.
+Proof.
+  intros Hi Hw. destruct (array_elem_offset e n idx Hi) as (Hfo & _).
+  rewrite (view_getitem_field _ tv idx _ _ Hfo). unfold view_getitem_dyn.
+  replace (layout_size e <=? 0) with false by lia. reflexivity.
+Qed.
+
+Lemma view_path_cons l tv k r : view_path l tv (k :: r) =
+  match view_getitem l tv k with
+  | Ok sub v => match r with [] => Ok sub v | _ => view_path sub v r end
+  | e => e
+  end.
+Proof. reflexivity. Qed.
+
+Lemma view_field_layout sub bits : is_layout sub = true -> 0 <= bits < 2 ^ layout_size sub ->
+  view_field sub bits = Ok sub bits.
+Proof.
+  intros Hl Hb. assert (from_bits sub bits = Ok sub bits) as H.
+  { unfold from_bits. replace ((0 <=? bits) && (bits <? 2 ^ layout_size sub)) with true by lia. reflexivity. }
+  destruct sub; simpl in Hl; try discriminate; exact H.
+Qed.
+
+(* nested view access = one slice at the summed offset *)
+Lemma view_path_offset : forall p l tv c t, wf_layout l = true -> path_chain l p = Some (c, t) -> p <> [] ->
+  view_path l tv p = view_field t (slice (chain_off c) (layout_size t) tv).
+Proof.
+  induction p as [|k r IH]; intros l tv c t Hwf Hpc Hne; [congruence|].
+  rewrite path_chain_cons in Hpc. destruct (field_of l k) as [[off sub]|] eqn:Hfo; [|discriminate].
+  destruct (path_chain sub r) as [[c' t']|] eqn:Hpc'; [|discriminate]. inversion Hpc; subst.
+  destruct (field_of_within l k off sub Hwf Hfo) as (Ho & Hin & Hws).
+  pose proof (layout_size_nonneg sub Hws) as Hsw.
+  rewrite view_path_cons, (view_getitem_field l tv k off sub Hfo). rewrite chain_off_cons.
+  destruct r as [|k2 r2].
+  - simpl in Hpc'. inversion Hpc'; subst. unfold chain_off; simpl. rewrite Z.add_0_r.
+    destruct (view_field t (slice off (layout_size t) tv)); reflexivity.
+  - assert (is_layout sub = true) as Hl.
+    { rewrite path_chain_cons in Hpc'. destruct (field_of sub k2) eqn:E; [|discriminate].
+      apply (field_of_some_layout sub k2 _ E). }
+    rewrite view_field_layout by (auto; apply slice_range; auto).
+    rewrite (IH sub _ c' t Hws Hpc' ltac:(congruence)).
+    destruct (path_chain_within _ sub c' t Hws Hpc') as (H1 & H2 & H3).
+    rewrite slice_slice; auto. apply layout_size_nonneg; auto.
+Qed.
+
+Lemma const_path_offset : forall p l raw c t, wf_layout l = true -> path_chain l p = Some (c, t) -> p <> [] ->
+  const_path l raw p = const_field t (slice (chain_off c) (layout_size t) raw).
+Proof.
+  induction p as [|k r IH]; intros l raw c t Hwf Hpc Hne; [congruence|].
+  rewrite path_chain_cons in Hpc. destruct (field_of l k) as [[off sub]|] eqn:Hfo; [|discriminate].
+  destruct (path_chain sub r) as [[c' t']|] eqn:Hpc'; [|discriminate]. inversion Hpc; subst.
+  destruct (field_of_within l k off sub Hwf Hfo) as (Ho & Hin & Hws).
+  pose proof (layout_size_nonneg sub Hws) as Hsw.
+  rewrite const_path_cons, (const_getitem_field l raw k off sub (field_of_some_layout l k _ Hfo) Hfo).
+  rewrite chain_off_cons.
+  destruct r as [|k2 r2].
+  - simpl in Hpc'. inversion Hpc'; subst. unfold chain_off; simpl. rewrite Z.add_0_r.
+    destruct (const_field t (slice off (layout_size t) raw)); reflexivity.
+  - assert (is_layout sub = true) as Hl.
+    { rewrite path_chain_cons in Hpc'. destruct (field_of sub k2) eqn:E; [|discriminate].
+      apply (field_of_some_layout sub k2 _ E). }
+    pose proof (slice_range off (layout_size sub) raw Ho Hsw) as Hr.
+    rewrite <- (mask_small _ _ Hr) at 1. rewrite const_field_layout by auto.
+    rewrite (IH sub _ c' t Hws Hpc' ltac:(congruence)).
+    destruct (path_chain_within _ sub c' t Hws Hpc') as (H1 & H2 & H3).
+    rewrite slice_slice; auto. apply layout_size_nonneg; auto.
+Qed.
+
+(* ================================================================== assignment through a view *)
+Fixpoint nested_ok (c : list (Z * Z)) (n : Z) : Prop :=
+  match c with
+  | [] => True
+  | (o, w) :: r => 0 <= o /\ 0 <= w /\ o + w <= n /\ nested_ok r w
+  end.
+Fixpoint last_w (c : list (Z * Z)) (w0 : Z) : Z :=
+  match c with [] => w0 | (_, w) :: r => last_w r w end.
+
+Lemma path_chain_nested : forall p l c t, wf_layout l = true -> path_chain l p = Some (c, t) ->
+  nested_ok c (layout_size l) /\ last_w c (layout_size l) = layout_size t.
+Proof.
+  induction p as [|k r IH]; intros l c t Hwf Hpc.
+  - simpl in Hpc. inversion Hpc; subst. simpl. auto.
+  - rewrite path_chain_cons in Hpc. destruct (field_of l k) as [[off sub]|] eqn:Hfo; [|discriminate].
+    destruct (path_chain sub r) as [[c' t']|] eqn:Hpc'; [|discriminate]. inversion Hpc; subst.
+    destruct (field_of_within l k off sub Hwf Hfo) as (Ho & Hin & Hws).
+    destruct (IH sub c' t Hws Hpc') as [H1 H2]. simpl. pose proof (layout_size_nonneg sub Hws). tauto.
+Qed.
+
+Lemma land_ones_small n a : 0 <= n -> 0 <= a < 2 ^ n -> Z.land a (ones n) = a.
+Proof. intros. unfold ones. rewrite mask_land by auto. apply mask_small; auto. Qed.
+
+Lemma assign_chain_base n cur start x len : 0 <= start -> 0 <= len -> start + len <= n -> 0 <= cur < 2 ^ n ->
+  assign_chain [] n cur start x len = upd start len cur x.
+Proof.
+  intros Hs Hl Hn Hc. simpl. replace (n <? start + len) with false by lia.
+  destruct (n <=? start) eqn:E.
+  - assert (len = 0) by lia. subst. rewrite upd_width0 by auto. reflexivity.
+  - assert (Z.shiftl 1 (start + len) - Z.shiftl 1 start = Z.shiftl (ones len) start) as ->.
+    { unfold ones. rewrite !Z.shiftl_mul_pow2 by lia. rewrite Z.pow_add_r by lia. ring. }
+    fold (upd start len cur x). apply land_ones_small; [lia|]. apply upd_range; auto.
+Qed.
+
+Lemma assign_chain_rev : forall c w0 tl n cur start x len, nested_ok c w0 -> 0 < len -> 0 <= start ->
+  start + len <= last_w c w0 ->
+  assign_chain (rev c ++ tl) n cur start x len = assign_chain tl n cur (start + chain_off c) x len /\
+  start + chain_off c + len <= w0.
+Proof.
+  induction c as [|[o w] r IH]; intros w0 tl n cur start x len Hok Hlen Hs Hb.
+  - simpl in *. unfold chain_off; simpl. rewrite Z.add_0_r. split; [reflexivity|lia].
+  - simpl in Hok, Hb. destruct Hok as (Ho & Hw & Hin & Hok).
+    simpl rev. rewrite <- app_assoc. simpl app.
+    destruct (IH w ((o, w) :: tl) n cur start x len Hok Hlen Hs Hb) as [Heq Hbd].
+    rewrite Heq. rewrite chain_off_cons. split; [|lia].
+    cbn [assign_chain]. replace (w <=? start + chain_off r) with false by lia.
+    replace (w <? start + chain_off r + len) with false by lia. f_equal. lia.
+Qed.
+
+Lemma assign_chain_len0 : forall ch n cur start x, 0 <= n -> 0 <= cur < 2 ^ n -> 0 <= start ->
+  Forall (fun ow => 0 <= fst ow) ch -> assign_chain ch n cur start x 0 = cur.
+Proof.
+  induction ch as [|[o w] r IH]; intros n cur start x Hn Hc Hs Hall.
+  - simpl. destruct (n <=? start) eqn:E; [reflexivity|].
+    replace (n <? start + 0) with false by lia. rewrite Z.add_0_r, Z.sub_diag.
+    rewrite Z.land_0_r, Z.lor_0_r. replace (Z.lnot 0) with (-1) by reflexivity. rewrite Z.land_m1_r.
+    apply land_ones_small; auto.
+  - inversion Hall; subst. cbn [assign_chain]. destruct (w <=? start) eqn:E; [reflexivity|].
+    replace (w <? start + 0) with false by lia. apply IH; auto. simpl in *; lia.
+Qed.
+
+Lemma nested_ok_offsets : forall c n, nested_ok c n -> Forall (fun ow => 0 <= fst ow) c.
+Proof. induction c as [|[o w] r IH]; intros n H; constructor; simpl in *; [tauto|]. apply (IH w); tauto. Qed.
+
+Lemma view_assign_upd l tv p x c t : wf_layout l = true -> 0 <= tv < 2 ^ layout_size l ->
+  path_chain l p = Some (c, t) -> p <> [] ->
+  view_assign l tv p x = Okz (upd (chain_off c) (layout_size t) tv x).
+Proof.
+  intros Hwf Htv Hpc Hne. unfold view_assign. rewrite Hpc.
+  destruct (path_chain_nested p l c t Hwf Hpc) as [Hok Hlast].
+  destruct (path_chain_within p l c t Hwf Hpc) as (Hc0 & Hc1 & Hwt).
+  pose proof (layout_size_nonneg t Hwt) as Hw. pose proof (layout_size_nonneg l Hwf) as Hn.
+  destruct c as [|ow c'] eqn:Ec.
+  { destruct p; [congruence|]. rewrite path_chain_cons in Hpc. destruct (field_of l z) as [[? ?]|]; [|discriminate].
+    destruct (path_chain l0 p) as [[? ?]|]; discriminate. }
+  rewrite <- Ec in *. f_equal.
+  destruct (Z.eq_dec (layout_size t) 0) as [E0|E0].
+  - rewrite E0. rewrite upd_width0 by auto. apply assign_chain_len0; [lia|auto|lia|].
+    apply Forall_rev. apply (nested_ok_offsets c _ Hok).
+  - destruct (assign_chain_rev c (layout_size l) [] (layout_size l) tv 0 x (layout_size t) Hok ltac:(lia) ltac:(lia) ltac:(lia))
+      as [Heq Hbd].
+    rewrite app_nil_r in Heq. rewrite Heq. simpl (0 + chain_off c). apply assign_chain_base; auto; lia.
+Qed.
+
+(* assigning through a (nested) view field changes exactly that field's bits, and the field reads back
+   the assigned value normalised to its shape *)
+Lemma view_assign_only_field l tv p x c t : wf_layout l = true -> 0 <= tv < 2 ^ layout_size l ->
+  path_chain l p = Some (c, t) -> p <> [] ->
+  let off := chain_off c in let w := layout_size t in
+  exists tv', view_assign l tv p x = Okz tv' /\ 0 <= tv' < 2 ^ layout_size l /\
+    (forall i, 0 <= i -> Z.testbit tv' i =
+        if (off <=? i) && (i <? off + w) then Z.testbit x (i - off) else Z.testbit tv i) /\
+    (forall o2 w2, 0 <= o2 -> 0 <= w2 -> o2 + w2 <= off \/ off + w <= o2 -> slice o2 w2 tv' = slice o2 w2 tv) /\
+    view_path l tv' p = view_field t (mask w x) /\
+    (forall s, t = Leaf s -> view_path l tv' p = Ok (Leaf s) (norm s x)).
+Proof.
+  intros Hwf Htv Hpc Hne off w.
+  destruct (path_chain_within p l c t Hwf Hpc) as (Hc0 & Hc1 & Hwt).
+  pose proof (layout_size_nonneg t Hwt) as Hw.
+  exists (upd off w tv x). split; [apply view_assign_upd; auto|].
+  split; [apply upd_range; auto|]. split; [intros; apply testbit_upd; auto|].
+  split; [intros; apply slice_upd_other; auto|].
+  assert (view_path l (upd off w tv x) p = view_field t (mask w x)) as Hv.
+  { rewrite (view_path_offset p l _ c t Hwf Hpc Hne). fold off w. rewrite slice_upd_same by auto. reflexivity. }
+  split; [exact Hv|]. intros s ->. rewrite Hv. simpl in *. unfold w, norm. simpl.
+  unfold wf_shape in Hwt. destruct (sgn s); [rewrite sext_mask by lia|]; reflexivity.
+Qed.
+
+(* ================================================================== shaped enumerations *)
+Lemma enum_from_bits_const s ms raw m : wf_shape s = true -> (forall x, In x ms -> in_range s x) ->
+  enum_from_bits ms raw = Okz m -> m = raw /\ enum_const s ms m = Okz raw.
+Proof.
+  intros Hs Hr. unfold enum_from_bits, enum_const. destruct (memz raw ms) eqn:E; [|discriminate].
+  intros H; inversion H; subst. split; auto. rewrite E. rewrite norm_id; auto. apply Hr. apply memz_in; auto.
+Qed.
+
+Lemma enum_const_from_bits s ms m : wf_shape s = true -> In m ms -> in_range s m ->
+  enum_const s ms m = Okz m /\ enum_from_bits ms m = Okz m.
+Proof.
+  intros Hs Hin Hr. apply memz_in in Hin. unfold enum_const, enum_from_bits. rewrite Hin. rewrite norm_id; auto.
+Qed.
+
+(* the bit pattern handed to from_bits by data.Const.__getitem__ is the unsigned one *)
+Lemma enum_pattern_roundtrip s ms m v : wf_shape s = true -> In m ms -> 0 <= m < 2 ^ width s ->
+  enum_const s ms m = Okz v -> enum_from_bits ms (mask (width s) v) = Okz m.
+Proof.
+  intros Hs Hin Hr. apply memz_in in Hin. unfold enum_const, enum_from_bits. rewrite Hin.
+  intros H; inversion H; subst. rewrite mask_of_norm by auto. rewrite mask_small by auto. rewrite Hin. reflexivity.
+Qed.
+
+(* ================================================================== flags *)
+Lemma filter_implied {A} (f g : A -> bool) l : (forall x, g x = true -> f x = true) -> filter f (filter g l) = filter g l.
+Proof.
+  intros H. induction l as [|x r IH]; simpl; [reflexivity|]. destruct (g x) eqn:E; simpl; [|exact IH].
+  rewrite (H x E). rewrite IH. reflexivity.
+Qed.
+
+Lemma am_singles_eq E : am_singles E = py_singles E.
+Proof.
+  unfold am_singles, py_singles. rewrite filter_implied; [reflexivity|].
+  intros x. unfold is_single_bit. destruct (x =? 0); [discriminate|auto].
+Qed.
+
+Lemma bop_range w o x y : 0 <= w -> 0 <= x < 2 ^ w -> 0 <= y < 2 ^ w -> 0 <= bop_z o x y < 2 ^ w.
+Proof.
+  intros Hw Hx Hy. apply range_of_bits; auto. intros i Hi.
+  pose proof (bits_of_range w x i Hw Hx Hi) as Bx. pose proof (bits_of_range w y i Hw Hy Hi) as By.
+  destruct o; simpl; [rewrite Z.land_spec|rewrite Z.lor_spec|rewrite Z.lxor_spec]; rewrite Bx, By; reflexivity.
+Qed.
+
+Lemma flag_bop_match E o x y : 0 <= fwidth E -> 0 <= x < 2 ^ fwidth E -> 0 <= y < 2 ^ fwidth E ->
+  fv_bop E o x y = py_flag_bop E o x y /\ 0 <= fv_bop_raw E o x y < 2 ^ fwidth E.
+Proof.
+  intros Hw Hx Hy. unfold fv_bop, py_flag_bop, fv_bop_raw. pose proof (bop_range _ o x y Hw Hx Hy) as Hr.
+  rewrite mask_small by auto. auto.
+Qed.
+
+Lemma bits_for_bound n w : 0 <= n -> bits_for n false <= w -> n < 2 ^ w.
+Proof.
+  intros Hn Hb. unfold bits_for in Hb. destruct (0 <? n) eqn:E.
+  - pose proof (bit_length_upper n Hn). pose proof (bit_length_nonneg n).
+    pose proof (pow2_mono (bit_length n) w ltac:(lia)). lia.
+  - assert (n = 0) by lia. subst. simpl in Hb. pose proof (pow2_pos w ltac:(lia)). lia.
+Qed.
+
+Lemma flag_not_match_strict E x : (fbound E = STRICT \/ fbound E = CONFORM) -> 0 <= fwidth E ->
+  0 <= py_singles E -> bits_for (py_singles E) false <= fwidth E ->
+  fv_not E x = Some (py_flag_not E x).
+Proof.
+  intros Hb Hw Hs0 Hsb. pose proof (bits_for_bound _ _ Hs0 Hsb) as Hs.
+  unfold fv_not, fv_not_raw, py_flag_not. rewrite am_singles_eq.
+  assert (Z.land (mask (fwidth E) (Z.lnot x)) (py_singles E) = Z.land (py_singles E) (Z.lnot x)) as Heq.
+  { apply Z.bits_inj'; intros i Hi. rewrite !Z.land_spec, testbit_mask by auto.
+    destruct (i <? fwidth E) eqn:Ei; simpl; [apply andb_comm|].
+    rewrite (bits_of_range (fwidth E) (py_singles E) i) by (auto; lia). reflexivity. }
+  destruct Hb as [-> | ->]; replace (fwidth E <? bits_for (py_singles E) false) with false by lia;
+    rewrite Heq; reflexivity.
+Qed.
+
+Lemma lor_list_nonneg_aux l : forall a, 0 <= a -> Forall (fun m => 0 <= m) l -> 0 <= fold_left Z.lor l a.
+Proof.
+  induction l as [|m r IH]; intros a Ha Hall; simpl; [auto|]. inversion Hall; subst. apply IH; auto.
+  apply Z.lor_nonneg; auto.
+Qed.
+
+(* EJECT / KEEP: ~ agrees when the shape spans exactly the members' bits and every bit is a flag *)
+Lemma flag_not_match_keep E x : (fbound E = EJECT \/ fbound E = KEEP) -> 0 <= fwidth E ->
+  Forall (fun m => 0 <= m) (fmembers E) -> flag_mask E = 2 ^ fwidth E - 1 ->
+  0 <= x < 2 ^ fwidth E ->
+  fv_not E x = Some (py_flag_not E x) /\ py_flag_not E x = FMem (2 ^ fwidth E - 1 - x).
+Proof.
+  intros Hb Hw Hnn Hfm Hx. set (w := fwidth E) in *.
+  pose proof (pow2_pos w Hw) as Hp.
+  assert (bit_length (2 ^ w - 1) = w) as Hbl.
+  { destruct (Z.eq_dec w 0) as [->|Hw0]; [reflexivity|].
+    apply Z.le_antisymm.
+    - apply bit_length_min; lia.
+    - pose proof (bit_length_upper (2 ^ w - 1) ltac:(lia)). pose proof (bit_length_nonneg (2 ^ w - 1)).
+      destruct (Z_lt_le_dec (bit_length (2 ^ w - 1)) w); [|lia].
+      pose proof (pow2_mono (bit_length (2 ^ w - 1)) (w - 1) ltac:(lia)).
+      pose proof (pow2_split w ltac:(lia)). pose proof (pow2_pos (w - 1) ltac:(lia)). lia. }
+  assert (all_bits E = 2 ^ w - 1) as Hab by (unfold all_bits; rewrite Hfm, Hbl; reflexivity).
+  set (r := 2 ^ w - 1 - x).
+  assert (mask w (Z.lnot x) = r) as Hm.
+  { unfold mask, Z.lnot, r. replace (Z.pred (- x)) with (2 ^ w - 1 - x + (-1) * 2 ^ w) by lia.
+    rewrite Z.mod_add by lia. apply Z.mod_small. lia. }
+  (* cls(r) for 0 <= r <= all_bits *)
+  assert (Hnew : forall v, 0 <= v <= 2 ^ w - 1 -> py_flag_new E v = FMem v).
+  { intros v Hv. unfold py_flag_new. destruct (memz v (fmembers E)); [reflexivity|].
+    rewrite Hab, Hfm. rewrite Z.lxor_nilpotent, Z.land_0_r.
+    replace (negb ((Z.lnot (2 ^ w - 1) <=? v) && (v <=? 2 ^ w - 1)) || negb (0 =? 0)) with false
+      by (unfold Z.lnot; lia).
+    replace (v <? 0) with false by lia.
+    assert (Z.land v (Z.lnot (2 ^ w - 1)) = 0) as ->.
+    { apply Z.bits_inj'; intros i Hi. rewrite Z.land_spec, Z.lnot_spec, Z.bits_0 by auto.
+      replace (2 ^ w - 1) with (Z.ones w) by (rewrite Z.ones_equiv; lia).
+      rewrite Z.testbit_ones_nonneg by auto. destruct (i <? w) eqn:Ei; simpl; [apply andb_false_r|].
+      rewrite (bits_of_range w v i) by (auto; lia). reflexivity. }
+    simpl (negb (0 =? 0)). cbv iota beta.
+    destruct Hb as [-> | ->]; simpl; rewrite ?andb_false_r;
+      repeat match goal with |- context [if ?c then _ else _] => destruct c end; reflexivity. }
+  assert (Hneg : py_flag_new E (Z.lnot x) = FMem r).
+  { unfold py_flag_new.
+    assert (memz (Z.lnot x) (fmembers E) = false) as ->.
+    { destruct (memz (Z.lnot x) (fmembers E)) eqn:Em; [|reflexivity]. apply memz_in in Em.
+      rewrite Forall_forall in Hnn. specialize (Hnn _ Em). unfold Z.lnot in Hnn. lia. }
+    rewrite Hab, Hfm. rewrite Z.lxor_nilpotent, Z.land_0_r.
+    replace (negb ((Z.lnot (2 ^ w - 1) <=? Z.lnot x) && (Z.lnot x <=? 2 ^ w - 1)) || negb (0 =? 0)) with false
+      by (unfold Z.lnot; lia).
+    replace (Z.lnot x <? 0) with true by (unfold Z.lnot; lia).
+    replace (2 ^ w - 1 + 1 + Z.lnot x) with r by (unfold r, Z.lnot; lia).
+    assert (Z.land r (Z.lnot (2 ^ w - 1)) = 0) as ->.
+    { apply Z.bits_inj'; intros i Hi. rewrite Z.land_spec, Z.lnot_spec, Z.bits_0 by auto.
+      replace (2 ^ w - 1) with (Z.ones w) by (rewrite Z.ones_equiv; lia).
+      rewrite Z.testbit_ones_nonneg by auto. destruct (i <? w) eqn:Ei; simpl; [apply andb_false_r|].
+      rewrite (bits_of_range w r i) by (auto; unfold r; lia). reflexivity. }
+    simpl (negb (0 =? 0)). cbv iota beta.
+    destruct Hb as [-> | ->]; simpl; rewrite ?andb_false_r;
+      repeat match goal with |- context [if ?c then _ else _] => destruct c end; reflexivity. }
+  assert (py_flag_not E x = FMem r) as Hpy.
+  { unfold py_flag_not. destruct Hb as [-> | ->]; exact Hneg. }
+  split; [|exact Hpy]. rewrite Hpy. unfold fv_not, fv_not_raw. fold w.
+  destruct Hb as [Hb | Hb]; rewrite Hb; rewrite Hm; rewrite Hnew by (unfold r; lia); reflexivity.
+Qed.
+
+(* from_bits never alters an accepted non-negative bit pattern (CONFORM discards unknown bits by design) *)
+Lemma flag_from_bits_value E raw m : 0 <= raw -> fbound E <> CONFORM ->
+  flag_from_bits E raw = FMem m -> m = raw.
+Proof.
+  intros Hr Hb. unfold flag_from_bits, py_flag_new. cbv zeta.
+  replace (raw <? 0) with false by lia.
+  destruct (memz raw (fmembers E)); [intros H; inversion H; auto|].
+  destruct (fbound E) eqn:EB; try congruence; rewrite ?andb_false_r;
+  repeat match goal with
+         | |- context [if ?c then _ else _] => destruct c eqn:?
+         end; intros H; try discriminate; try (inversion H; subst; reflexivity); exfalso; lia.
+Qed.
